@@ -400,7 +400,7 @@ def run_peer_reset(params, known):
         if kind in kinds:
             return
         kinds.add(kind)
-        v = Violation(PROP, 'termination', kind, dict(), '%r: %s' % (case, detail)).as_dict()
+        v = Violation(params.get('prop', PROP), 'termination', kind, dict(), '%r: %s' % (case, detail)).as_dict()
         v['case'] = case
         violations.append(v)
     stages = ('negotiating', 'idle-session', 'after-terminate', 'own-transfer-unacknowledged', 'own-transfer-unacknowledged+terminate',
